@@ -10,7 +10,8 @@ INTS = 'cbsilBSIL'
 DURS = [('std::chrono::nanoseconds', 1), ('std::chrono::seconds', 10**9), ('std::chrono::duration<int, std::ratio<86400>>', 86400 * 10**9),
         ('std::chrono::duration<std::int16_t, std::ratio<60>>', 60 * 10**9), ('std::chrono::milliseconds', 10**6)]
 TPNAME = 'std::chrono::system_clock::time_point'
-SEQ_KINDS = ['map', 'vector', 'deque', 'list', 'forward_list', 'array', 'carray', 'string', 'vector_bool', 'set', 'multiset']
+SEQ_KINDS = ['map', 'vector', 'deque', 'list', 'forward_list', 'array', 'carray', 'string', 'vector_bool', 'set', 'multiset', 'proxy']
+PROXY = {'B': 'int', 'b': 'int', 's': 'long', 'S': 'unsigned', 'I': 'unsigned long long', 'i': 'long long'}    # value_type letter -> what the iterator dereferences to
 OPT_KINDS = ['raw', 'unique', 'shared', 'optional']
 
 class Gen:
@@ -37,6 +38,7 @@ class Gen:
             if kind == 'carray' and not carray_ok: kind = 'array'
             if kind == 'string': return ('Q', 'string', ('A', 'c'), None)
             if kind == 'vector_bool': return ('Q', 'vector_bool', ('A', 'y'), None)
+            if kind == 'proxy': return ('Q', 'proxy', ('A', r.choice(sorted(PROXY))), None)     # user container whose iterator yields a wider type than value_type
             if kind in ('set', 'multiset'): return ('Q', kind, self.ty(depth + 1, in_set=True), None)
             if kind == 'map':
                 vt = ('Q', r.choice(['set', 'multiset']), ('A', r.choice('bsilBSIL')), None) if r.random() < 0.5 else self.ty(depth + 1)
@@ -76,6 +78,16 @@ class Gen:
     def struct(self, depth):
         r = self.rng
         name = self.fresh('St')
+        if r.random() < 0.3:
+            # members exposed through getters (pointers by value, the rest by const reference); serialize-only
+            fields = [('m%d' % i, self.ty(depth + 1)) for i in range(r.randrange(1, 4))]
+            body = ' '.join('%s %s_{};' % (self.cpp(t), f) for f, t in fields)
+            getters = ' '.join(('%s %s() const { return %s_; }' if (t[0] in ('A', 'PE', 'E') or (t[0] == 'O' and t[1] == 'raw')) else 'const %s& %s() const { return %s_; }') % (self.cpp(t), f, f) for f, t in fields)
+            self.defs.append('struct %s { %s %s };' % (name, body, getters))
+            args = ''.join(', ' + f for f, _ in fields)
+            self.defs.append('MSERIALIZE_MAKE_STRUCT_SERIALIZABLE(%s%s)' % (name, args))
+            self.defs.append('MSERIALIZE_MAKE_STRUCT_TAG(%s%s)' % (name, args))
+            return ('S', name, fields, True)
         fields = [('m%d' % i, self.ty(depth + 1, carray_ok=True)) for i in range(r.randrange(0, 4))]
         body = ' '.join('%s %s%s;' % (self.cpp_decl(t, f)) for f, t in fields)
         self.defs.append('struct %s { %s };' % (name, body))
@@ -101,6 +113,7 @@ class Gen:
             kind, e, n = t[1], t[2], t[3]
             if kind == 'string': return 'std::string'
             if kind == 'vector_bool': return 'std::vector<bool>'
+            if kind == 'proxy': return 'mc::ProxySeq<%s, %s>' % (self.cpp(e), PROXY[e[1]])
             if kind == 'array': return 'std::array<%s, %d>' % (self.cpp(e), n)
             if kind == 'map': return 'std::map<%s, %s>' % (self.cpp(e[1][0]), self.cpp(e[1][1]))
             if kind == 'carray': return None     # declared specially
@@ -212,6 +225,9 @@ class Gen:
             if kind == 'vector_bool':
                 for b in vs: out.append('%s%s.push_back(%s);' % (ind, x, 'true' if b[1] else 'false'))
                 return
+            if kind == 'proxy':
+                for b in vs: out.append('%s%s.v.push_back(mc::bits<%s>(%dULL));' % (ind, x, self.cpp(e), b[1]))
+                return
             if kind == 'map':
                 for b in vs:
                     out.append('%s{ %s key{};' % (ind, self.cpp(e[1][0]))); self.build(e[1][0], b[1][0], 'key', out, ind + '  ')
@@ -239,7 +255,7 @@ class Gen:
             return
         if k == 'S':
             for (f, tt), vv in zip(t[2], v[1]):
-                out.append('%s{ auto& e%d = %s.%s;' % (ind, len(ind), x, f)); self.build(tt, vv, 'e%d' % len(ind), out, ind + '  '); out.append('%s}' % ind)
+                out.append('%s{ auto& e%d = %s.%s%s;' % (ind, len(ind), x, f, '_' if len(t) > 3 and t[3] else '')); self.build(tt, vv, 'e%d' % len(ind), out, ind + '  '); out.append('%s}' % ind)
             return
         if k == 'O':
             if v[0] == 'n': return
@@ -264,14 +280,16 @@ class Gen:
         if k == 'Q' and t[1] == 'map':
             if in_map: return False          # the library cannot deserialize a map nested in a map (does not compile)
             return self.deserializable(t[2], True)
+        if in_map and k == 'Q' and t[1] == 'proxy': return False
+        if in_map and k == 'S' and len(t) > 3 and t[3]: return False
         if in_map and k in ('Q', 'T', 'S', 'O'):
             sub = [t[2]] if k in ('Q', 'O') else (t[1] if k == 'T' else [x for _, x in t[2]])
             return (k != 'O' or t[1] != 'raw') and all(self.deserializable(x, True) for x in sub)
         if k in ('V', 'TP'): return False
         if k == 'O': return t[1] != 'raw' and self.deserializable(t[2])
-        if k == 'Q': return self.deserializable(t[2])
+        if k == 'Q': return t[1] != 'proxy' and self.deserializable(t[2])
         if k == 'T': return all(self.deserializable(x) for x in t[1])
-        if k == 'S': return all(self.deserializable(x) for _, x in t[2])
+        if k == 'S': return not (len(t) > 3 and t[3]) and all(self.deserializable(x) for _, x in t[2])
         return True
 
 def no_inner_carray(g, t, top=True):
